@@ -58,6 +58,16 @@ CHECKS = {
             'DESIGN.md §4 C11',
             'Trusted: rustc type/borrow checker, nightly MIR. User contexts with interior mutability are outside the provided-context claim.',
             'type facts + per-variant abstract interpretation + sibling CFG isomorphism + compile-fail witnesses'),
+    'C06': ('other',
+            'Clause level: escape table (exactly `\\"` and `\\\\`), string scanner (special characters, unterminated literal, no comment/operator recognition inside strings), classification order of words (int, float, bool, scientific join, identifier - first success decides), hex prefix/radix constants, consume = match for every path of one tokenizer iteration (229 paths enumerated), and payload pass-through from tokens to constant nodes - all by abstract interpretation of the tokenizer MIR. What std number parsing accepts is not decided.',
+            'DESIGN.md §4 C06',
+            'Trusted: nightly rustc MIR; i64/f64/bool FromStr and from_str_radix (std). Seen but outside this technique: the words inf/nan/infinity lex as floats.',
+            'tokenizer path enumeration by abstract interpretation + table rules'),
+    'C07': ('other',
+            'Clause level: every path on which a comment was skipped pushes a Whitespace separator (must-pass-through); default character arm classifies with the Unicode char::is_whitespace; fusion only Literal+Literal, everything else its own element, whitespace yields no token; try_skip_comment returns Ok(true) only after `//` or a closed `/* */`, errors on unterminated `/*`, consumes nothing on false, line comments end at `\\n`; comment markers in strings are plain text (C06 R6.2).',
+            'DESIGN.md §4 C07',
+            'Trusted: nightly rustc MIR; std char::is_whitespace = Unicode White_Space. Not decided: tree equality for all separator assignments beyond the tokenizer clauses.',
+            'must-pass-through / fusion rules over enumerated MIR paths of the character loop'),
 }
 
 PENDING_REASON = 'check not yet built in this revision of the framework (design in DESIGN.md); not claimed until its rules run'
